@@ -1574,7 +1574,7 @@ func (n *PrintNode) Render(w io.Writer, ctx *RenderContext) error {
 	case int:
 		str = strconv.Itoa(v)
 	case float64:
-		str = strconv.FormatFloat(v, 'f', -1, 64)
+		str = strconv.FormatFloat(v+0, 'f', -1, 64) // v+0: a negative zero prints as 0
 	case int64:
 		str = strconv.FormatInt(v, 10)
 	case bool:
